@@ -26,9 +26,9 @@ import (
 )
 
 type c14Scenario struct {
-	Name    string    `json:"name"`
-	Setup   []wOp     `json:"setup"`   // sequential prefix
-	Threads [][]wOp   `json:"threads"` // concurrent programs
+	Name    string  `json:"name"`
+	Setup   []wOp   `json:"setup"`   // sequential prefix
+	Threads [][]wOp `json:"threads"` // concurrent programs
 }
 
 func c14Gid() string {
@@ -112,7 +112,7 @@ func (e *c14Exec) quiesce() {
 }
 
 type c14Action struct {
-	Start int    // thread to start (-1: release)
+	Start int // thread to start (-1: release)
 	Gate  string
 }
 
@@ -406,7 +406,7 @@ type c14Replay struct {
 
 type c14Stats struct {
 	schedules, nonSerial, actions int64
-	outcomes             map[string]bool
+	outcomes                      map[string]bool
 }
 
 // c14Explore: stateless DFS over all action choices (complete schedules).
@@ -452,6 +452,19 @@ func c14Explore(r *vk.Run, sc c14Scenario, maxSchedules int, st *c14Stats) {
 			if c.End < 0 {
 				r.Violation("C14/call-never-returns/"+wKindNameX(c.Op.K), fmt.Sprintf("%s did not return in scenario %s schedule %v", c14OpString(c.Op), sc.Name, sched), rp)
 				return
+			}
+		}
+		for _, c := range e.calls {
+			if (c.Op.K == oNew || c.Op.K == oImport) && c.Res.ok && c.Res.id != "" {
+				seed := c.Op.S
+				if c.Op.K == oImport {
+					seed = e.m0.Files[c.Op.Slot].Seed
+				}
+				if es := obs.checkID(seed, c.Res.id); es != "" {
+					r.Violation("C14/identity/"+c14Pair(e.calls), es, rp)
+					return
+				}
+				ids[seed] = c.Res.id
 			}
 		}
 		// resolve which keystore owns each key returned by GenerateNewPublicKey
@@ -667,7 +680,7 @@ func c14RacePass(r *vk.Run, scs []c14Scenario) (reports int) {
 	seen := map[string]bool{}
 	for range scs {
 		x := <-ch
-		for _, rep := range bytes.Split(x.out, []byte("WARNING: DATA RACE")) [1:] {
+		for _, rep := range bytes.Split(x.out, []byte("WARNING: DATA RACE"))[1:] {
 			end := bytes.Index(rep, []byte("=================="))
 			if end > 0 {
 				rep = rep[:end]
